@@ -57,7 +57,7 @@ def apiProg (c : Cfg) : Op → Prog Int
   | .setTick ns => apiSetTick ns
   | .reg h name slot flags hooks => do
     let r ← apiRegister name slot flags hooks
-    if r == 0 then modify fun s => { s with handles := (h, s.mods.length - 1) :: s.handles }
+    modify fun s => if r == 0 then { s with handles := (h, s.mods.length - 1) :: s.handles } else s
     pure r
   | .dereg m => modDeregisterP m
   | .start m => apiStart m
